@@ -498,7 +498,9 @@ def schedule_part(rec, shard, nshards, thorough):
             holder_s["last"] = problems
             return tr
         ns = 0
-        for dec, trace in sched.enumerate_schedules(run_start, (5 if thorough else 4) - max(npeers, 2), shard, nshards):
+        # (three deviations are affordable for the one-peer variant only: ~10^5 schedules; the others have ~5*10^4 at two)
+        bound_ = 3 if (thorough and npeers == 1) else 4 - max(npeers, 2)
+        for dec, trace in sched.enumerate_schedules(run_start, bound_, shard, nshards):
             dial_name = dial if isinstance(dial, str) else "sync-error"
             case = {"start_race": npeers, "dial": dial, "schedule": {str(i): c for i, c in sorted(dec.items())}}
             for kind, detail in holder_s["last"]:
